@@ -138,8 +138,13 @@ impl BufFile {
         b.asked_chunks = max_num_chunks as u32;
         Ok(b)
     }
-    pub fn with_per_mille(_name: &str, file: File, chunk_size: u32, _per_mille: u16) -> Result<Self> {
+    pub fn with_per_mille(_name: &str, file: File, chunk_size: u32, per_mille: u16) -> Result<Self> {
         assert!(chunk_size.is_power_of_two(), "rabuf contract: chunk size is a power of two");
+        // rabuf sizes an automatic buffer as max(32 KiB, file size * per_mille / 1000) bytes, i.e.
+        // that / chunk_size + 1 chunks.  With per_mille >= 1000 every chunk of the file fits; below
+        // that the buffer must be able to hold a second chunk besides the pinned first one even
+        // for a small file, or the first access beyond the first chunk never returns (D7).
+        assert!(per_mille >= 1000 || 32 * 1024 / chunk_size >= 1, "rabuf contract: the minimum automatic buffer (32 KiB) must hold at least one chunk besides the pinned first one");
         Ok(Self::take_next(file))
     }
     pub fn clear(&mut self) -> Result<()> {
